@@ -1,0 +1,68 @@
+//go:build verif
+
+// Contracts for package set, read by /verif/govc (comment-only; not part of any build).
+// Syntax: see /verif/DESIGN.md section 3.4.
+
+package set
+
+//@ ghostfield Set.nodes set
+//@ const INF = 1099511627776
+//@ const MAXR = 2147483646
+//@ const MAXI32 = 2147483647
+
+//@ pred H(s *Set) = &s.Head
+//@ pred Tl(s *Set) = &s.Tail
+//@ pred lo(s *Set, r *Node) = ite(r == H(s), -1, r.End)
+//@ pred hi(s *Set, r *Node) = ite(r == Tl(s), INF, r.Begin)
+//@ pred chain(s *Set, r *Node) = r == H(s) || in(r, s.nodes)
+//@ pred sentinels(s *Set) = !in(H(s), s.nodes) && !in(Tl(s), s.nodes) && !in(nil, s.nodes)
+//@      && Tl(s).Forward == nil && H(s).Backward == nil
+//@      && H(s).Begin == MAXI32 && H(s).End == 0 && Tl(s).Begin == 0 && Tl(s).End == 0
+//@ pred emptyFresh(s *Set) = H(s).Forward == nil && Tl(s).Backward == nil && forall(r, !in(r, s.nodes))
+//@ pred linked(s *Set) = H(s).Forward != nil && Tl(s).Backward != nil && H(s).Forward != Tl(s)
+//@ pred W1(s *Set) = forall(r * Node, imp(in(r, s.nodes), allocated(r) && 0 <= r.Begin && r.Begin <= r.End && r.End <= MAXR))
+//@ pred W2(s *Set) = forall(r * Node, imp(chain(s, r),
+//@        (in(r.Forward, s.nodes) || r.Forward == Tl(s)) && lo(s, r) < hi(s, r.Forward) && r.Forward.Backward == r))
+//@ pred W2b(s *Set) = forall(r * Node, imp(in(r, s.nodes) || r == Tl(s), chain(s, r.Backward) && r.Backward.Forward == r))
+//@ pred W3(s *Set) = forall(r * Node, m * Node, imp(chain(s, r) && in(m, s.nodes),
+//@        m == r || (r != H(s) && m.End < r.Begin) || m.Begin >= hi(s, r.Forward)))
+//@ pred wf(s *Set) = allocated(s) && sentinels(s) && (emptyFresh(s) || linked(s))
+//@      && imp(linked(s), W1(s)) && imp(linked(s), W2(s)) && imp(linked(s), W2b(s)) && imp(linked(s), W3(s))
+//@ defpred mem(s *Set, x rune) reads Set.nodes, Node.Begin, Node.End = exists(r * Node, in(r, s.nodes) && r.Begin <= x && x <= r.End)
+//@ pred ownNode(s *Set, r *Node) = in(r, s.nodes) || r == H(s) || r == Tl(s)
+
+//@ func NewSet
+//@   ensures fresh(result) && wf(result) && emptyFresh(result)
+//@   modifies Node.Forward, Node.Backward, Node.Begin, Node.End, Set.nodes at r where false
+
+//@ func Set.Has
+//@   requires wf(s) && 0 <= begin && begin <= MAXR
+//@   ensures  result == mem(s, begin)
+//@   overflow checked
+//@   loop 0 invariant beginNode == H(s) || (in(beginNode, s.nodes) && beginNode.End < begin)
+//@                    || (beginNode == Tl(s) && linked(s) && 0 < begin && forall(m * Node, imp(in(m, s.nodes), m.End < begin)))
+
+//@ func Set.Add
+//@   requires wf(s) && 0 <= a && a <= MAXR
+//@   ensures  wf(s)
+//@   ensures  forall(x, mem(s, x) == (old(mem(s, x)) || x == a))
+//@   modifies Node.Forward, Node.Backward, Node.Begin, Node.End at r where ownNode(s, r)
+//@   modifies Set.nodes at r where r == s
+//@   overflow checked
+
+//@ func Set.AddRange
+//@   requires wf(s) && 0 <= begin && begin <= end && end <= MAXR
+//@   ensures  wf(s)
+//@   ensures  forall(x, mem(s, x) == (old(mem(s, x)) || (begin <= x && x <= end)))
+//@   modifies Node.Forward, Node.Backward, Node.Begin, Node.End at r where ownNode(s, r)
+//@   modifies Set.nodes at r where r == s
+//@   overflow checked
+//@   loop 0 invariant beginNode == H(s) || (in(beginNode, s.nodes) && beginNode.End < begin)
+//@                    || (beginNode == Tl(s) && linked(s) && 0 < begin && forall(m * Node, imp(in(m, s.nodes), m.End < begin)))
+//@   loop 1 invariant endNode == Tl(s) || (in(endNode, s.nodes) && end < endNode.Begin)
+//@                    || (endNode == H(s) && linked(s) && forall(m * Node, imp(in(m, s.nodes), end < m.Begin)))
+//@   loop 1 invariant beginNode == H(s) || (in(beginNode, s.nodes) && beginNode.End < begin)
+//@                    || (beginNode == Tl(s) && linked(s) && 0 < begin && forall(m * Node, imp(in(m, s.nodes), m.End < begin)))
+//@   ghost after "node := Node{Begin: begin, End: end}" : s.nodes = add(s.nodes, &node)
+//@   ghost after "endNode.Backward = node" : s.nodes = setof(m * Node, in(m, s.nodes)
+//@         && !(m != node && m.Begin > node.Begin && (endNode == Tl(s) || m.Begin < endNode.Begin)))
